@@ -19,6 +19,6 @@ MANIFEST = dict(
     text="Theorems in coq/Properties/C18.v: for every octet list the model of sms.Unmarshal returns Ok (one of the eight structs, values shaped like its layout) or Err, never Panic; "
          "every value it returns is re-encoded by the model of sms.Marshal with Ok; the pre-fix decoder is refuted by a concrete time stamp with a filler nibble (D18); "
          "reader independence: on a bufio.Reader over a reader that hands out the octets in pieces of any sizes, each primitive the decoder uses (ReadByte, readFull, Peek, Discard) "
-         "returns what the list primitive returns on the octets still to come (C18_reader_independence_partial; composed statement tested, not proved); the single-Read decoder before fix e4e565a is refuted.",
+         "returns what the list primitive returns on the octets still to come (C18_reader_independence_partial; composed statement tested, not proved); the single-Read decoder before fix 0373e10 is refuted.",
     note="Trusted: Coq kernel + vm_compute; layout dumper and Go->Gallina printer; Go library code (bufio, bytes, reflect, time, strconv, x/text/transform). No axioms.",
 )
